@@ -21,7 +21,7 @@ RULE = (
     "Non-trivial: every grid point sits on or next to a boundary by construction; distinct by (type, initializer)."
 )
 ASSUMPTIONS = ["the acceptance rules are those restated in the property (range, kind, one ASCII character for uint8 only)"]
-MIN_MONITORS = {"grid-pair": 5000, "accepted-value": 1100, "rejected": 3500, "m-const": 1100}
+MIN_MONITORS = {"grid-pair": 5000, "accepted-value": 1100, "rejected": 3500, "m-const": 1100, "history-pair": 600}
 THOROUGH_MIN_SCALE = 1
 
 
@@ -218,6 +218,45 @@ def check_invalid(ctx, pydsdl, mon, workdir, t, init):
         ctx.violation("C12/wrong-exception", "%s K = %s: %r" % (t, init, ex), case)
 
 
+def history_pairs(ctx, pydsdl, mon, workdir):
+    """
+    The verdict on an initializer does not depend on what was accepted before it in the same process: for every arithmetic type,
+    `T A = 1` followed by `T K = true` (1 == True in Python, but a boolean is no number), `T A = 0` / `T K = false`, and the other
+    way round `bool B = true` followed by `T K = 1` (which must store the exact rational 1, not a boolean).
+    """
+    types = [(text, canon) for _k, _n, text, canon in int_types()] + [("%s float%d" % (m, w),) * 2 for w in (16, 32, 64) for m in ("saturated", "truncated")]
+    for i, (t, canon) in enumerate(types):
+        if i % ctx.nshards != ctx.shard:
+            continue
+        for num, boo in (("1", "true"), ("0", "false")):
+            if num == "1" and canon.endswith("int1") and "uint" not in canon:
+                continue
+            body = "%s A = %s\n%s K = %s\n@sealed\n" % (t, num, t, boo)
+            case = {"body": body}
+            mon.bind(ctx, case)
+            ctx.mon("history-pair")
+            ctx.mon("rejected")
+            try:
+                m = read_file(pydsdl, workdir, body)
+                ctx.violation("C12/invalid-accepted", "%s K = %s (after %s A = %s was accepted) must be rejected but was accepted as %s" % (t, boo, t, num, [str(c) for c in m.constants]), case)
+            except pydsdl.InvalidDefinitionError:
+                pass
+            body = "bool B = %s\n%s K = %s\n@sealed\n" % (boo, t, num)
+            case = {"body": body}
+            mon.bind(ctx, case)
+            ctx.mon("history-pair")
+            try:
+                m = read_file(pydsdl, workdir, body)
+            except pydsdl.InvalidDefinitionError as ex:
+                ctx.violation("C12/valid-rejected", "%s K = %s (after bool B = %s) is compliant but rejected: %r" % (t, num, boo, ex), case)
+                continue
+            k = [c for c in m.constants if c.name == "K"][0]
+            ctx.mon("accepted-value")
+            if not isinstance(k.value, pydsdl.Rational) or isinstance(k.value.native_value, bool) or k.value.native_value != Fraction(int(num)):
+                ctx.violation("C12/stored-value", "%s K = %s (after bool B = %s) stored as %r" % (t, num, boo, k.value), case)
+        ctx.case(("history", t), True, classes=["history-pair"])
+
+
 def run_shard(ctx):
     pydsdl = import_pydsdl()
     mon = ConstMonitor(pydsdl).install()
@@ -238,6 +277,11 @@ def run_shard(ctx):
                 check_invalid(ctx, pydsdl, mon, ctx.tmp, t, init)
         except CaseTimeout:
             ctx.inconclusive_case("watchdog", {"type": t, "init": init})
+    try:
+        with ctx.watchdog(300):
+            history_pairs(ctx, pydsdl, mon, ctx.tmp)
+    except CaseTimeout:
+        ctx.inconclusive_case("watchdog", {"history_pairs": True})
     for i, (t, c, init, e) in enumerate(mine):
         ctx.case((t, init), True, classes=["expect-" + e[0], "type-" + (c or t).split(" ")[-1].rstrip("0123456789")],
                  sample={"type": t, "initializer": init, "expected": e[0]} if i < 3 else None)
